@@ -74,7 +74,8 @@ EigendecompositionResult eigendecomposition_impl_dense(const MatrixType& wm, Ind
             DenseMatrix selected_eigenvectors =
                 solver.eigenvectors().leftCols(target_dimension + skip).rightCols(target_dimension);
             return EigendecompositionResult(selected_eigenvectors,
-                                            solver.eigenvalues().segment(skip, skip + target_dimension));
+                                            solver.eigenvalues().segment(
+                    skip, std::min<IndexType>(skip + target_dimension, solver.eigenvalues().size() - skip)));
         }
     }
     else
